@@ -47,6 +47,13 @@ def obligations(tier):
            descr='AbstractNumberWithUnitModel.parse: results that are pairwise identical or disjoint (what its extractors deliver and its accumulating loop re-processes) come out pairwise disjoint, each once',
            bounds='3 parse results anywhere in a text of length 8',
            encodes=['recognizers_number_with_unit.number_with_unit.models:AbstractNumberWithUnitModel.parse']),
+        Ob('O12.4-b_add-two-extractors', 'sx', S + 'h_b_add_two', slices=[{'src': 'abcdefgh'}], timeout=t,
+           descr='a unit model with two extractor/parser pairs (zh-cn: Chinese extractor + English fallback): a second-extractor result that covers a first-extractor result is dropped; '
+                 'the output is pairwise disjoint and nothing else vanishes (second-extractor results inside or across an earlier result: region F36)',
+           bounds='2 + 2 parse results anywhere in a text of length 8', encodes=['recognizers_number_with_unit.number_with_unit.models:AbstractNumberWithUnitModel.parse']),
+        Ob('O12.4-b_add-two-kf', 'sx', S + 'h_b_add_two_kf', slices=[{'src': 'abcdefgh'}], timeout=t, finding='F36',
+           descr='region F36: a later result inside or across an earlier one is kept'),
+        Ob('O12.4-witness', 'fn', S + 'api_witness_f36', timeout=t, finding='F36', descr='API witness of F36'),
         Ob('O12.5-select-candidates', 'sx', S + 'h_select_candidates', timeout=max(t, 300),
            descr='NumberWithUnitExtractor._select_candidates: prefix/suffix currency candidates that share a unit are resolved to pairwise disjoint entities',
            bounds='2..3 candidates (one number each, numbers distinct, units possibly shared) anywhere in a text of length 10, prefix/suffix flags symbolic',
